@@ -66,7 +66,7 @@ def gen_case(rng, params, idx):
             for k in sorted(rng.sample(["k1", "k2"], rng.randint(0, 2))):
                 kws.append({"n": k, "t": rng.choice(TYPES), "req": rng.random() < 0.5})
         methods.append({"mid": mid, "pos": pos, "kw": kws, "prio": 0, "self": is_method,
-                        "kind": "raise" if rng.random() < 0.25 else "ret"})
+                        "kind": "raise" if rng.random() < 0.25 else "ret", "rewritten": rng.random() < 0.4})
     return {"methods": methods, "is_method": is_method, "valseed": rng.randrange(1 << 30)}
 
 
@@ -113,6 +113,10 @@ def check_case(spec, res):
     o = Ovld()
     for m in spec["methods"]:
         body = [f"return __box.ret({m['mid']})"] if m["kind"] == "ret" else [f"raise __box.exc({m['mid']})"]
+        if m.get("rewritten"):
+            # the mere mention of recurse sends the method through the source rewriter: defaults, keyword-only
+            # defaults and everything else must survive that
+            body = ["__unused = recurse"] + body
         fn, f = make_method(m, env, vf, body, tag="c03", shared_ns=ns)
         files.append(f)
         fns[m["mid"]] = (fn, f)
